@@ -20,6 +20,7 @@ import (
 	"os"
 	"os/exec"
 	"path/filepath"
+	"regexp"
 	"runtime"
 	"runtime/debug"
 	"sort"
@@ -348,6 +349,11 @@ func workerMain(args []string) int {
 		f.Close()
 	}
 	t0 := time.Now()
+	chunkIdx := 0
+	if m := regexp.MustCompile(`chunk-(\d+)`).FindStringSubmatch(args[3]); m != nil {
+		chunkIdx, _ = strconv.Atoi(m[1])
+	}
+	seamWarmup(chunkIdx)
 	if p.Init != nil {
 		p.Init(w)
 	}
